@@ -153,6 +153,10 @@ def run(chk, w):
     regions_rule(chk, w, db)
     pops(chk, w, db)
     flags_rule(chk, w, db)
+    # the user's write callback is only ever entered by one thread at a time
+    from . import c01
+    chk.rule("C10-CB", "the write callback is invoked only with the send-buffer mutex held (never by two threads at once)")
+    c01.callback_rule(chk, w, c01.send_roles(w), db, "C10-CB")
     # canaries: fixture functions analysed as extra API roots in a separate engine
     canary(chk, w)
 
